@@ -125,6 +125,52 @@ def annotated_variant(root, relpath):
     return ast.unparse(tree), t.count
 
 
+class Respell(ast.NodeTransformer):
+    """other spellings of the same statement: `x op= e` -> `x = x op e`; `if not c: A else: B` -> `if c: B else: A`;
+    `a < b` -> `b > a` (and <=, >, >= likewise) unless the right operand is a literal"""
+    FLIP = {ast.Lt: ast.Gt, ast.Gt: ast.Lt, ast.LtE: ast.GtE, ast.GtE: ast.LtE}
+
+    def __init__(self):
+        self.count = 0
+
+    def visit_AugAssign(self, node):
+        self.generic_visit(node)
+        if isinstance(node.target, (ast.Name, ast.Attribute)):
+            import copy
+            self.count += 1
+            left = copy.deepcopy(node.target)
+            for x in ast.walk(left):
+                if hasattr(x, 'ctx'):
+                    x.ctx = ast.Load()
+            return ast.copy_location(ast.Assign(targets=[node.target], value=ast.BinOp(left=left, op=node.op, right=node.value)), node)
+        return node
+
+    def visit_If(self, node):
+        self.generic_visit(node)
+        if node.orelse and not (len(node.orelse) == 1 and isinstance(node.orelse[0], ast.If)) \
+                and isinstance(node.test, ast.UnaryOp) and isinstance(node.test.op, ast.Not):
+            self.count += 1
+            node.test = node.test.operand
+            node.body, node.orelse = node.orelse, node.body
+        return node
+
+    def visit_Compare(self, node):
+        self.generic_visit(node)
+        if len(node.ops) == 1 and type(node.ops[0]) in self.FLIP and not isinstance(node.comparators[0], ast.Constant):
+            self.count += 1
+            return ast.copy_location(ast.Compare(left=node.comparators[0], ops=[self.FLIP[type(node.ops[0])]()], comparators=[node.left]), node)
+        return node
+
+
+def respelled_variant(root, relpath):
+    with open(os.path.join(root, relpath), encoding='utf-8') as f:
+        tree = ast.parse(f.read())
+    t = Respell()
+    t.visit(tree)
+    ast.fix_missing_locations(tree)
+    return ast.unparse(tree), t.count
+
+
 def temp_variant(root, relpath):
     with open(os.path.join(root, relpath), encoding='utf-8') as f:
         tree = ast.parse(f.read())
@@ -163,6 +209,13 @@ def _job(args):
             new += sorted(f'[return-temp] {r} {k}' for r, k in got2 if (r, k) not in base)
     except Exception as e:
         return relpath, 'ERROR', ['[return-temp] ' + repr(e)[:200]]
+    try:
+        respelled, nr = respelled_variant(root, relpath)
+        if nr:
+            got4 = mutants._findings(pid, {relpath: respelled})
+            new += sorted(f'[respelled] {r} {k}' for r, k in got4 if (r, k) not in base)
+    except Exception as e:
+        return relpath, 'ERROR', ['[respelled] ' + repr(e)[:200]]
     try:
         annotated, na = annotated_variant(root, relpath)
         if na:
